@@ -10,6 +10,7 @@ import (
 	"math/rand"
 	"os"
 	"path/filepath"
+	"runtime"
 	"sort"
 	"strconv"
 	"strings"
@@ -70,6 +71,24 @@ func Begin(id, level, rule string) *Run {
 	r.Work = os.Getenv("VX_WORK")
 	if r.Work == "" {
 		r.Work, _ = os.MkdirTemp("", "vxwork")
+	}
+	// wall-clock watchdog: its firing is INCONCLUSIVE, never a verdict
+	wd := 30 * time.Minute
+	if r.Tier == "thorough" {
+		wd = 6 * time.Hour
+	}
+	if v, err := time.ParseDuration(os.Getenv("VX_WATCHDOG")); err == nil && v > 0 {
+		wd = v
+	}
+	if os.Getenv("VX_CHILD") == "" {
+		go func() {
+			time.Sleep(wd)
+			buf := make([]byte, 1<<20)
+			n := runtime.Stack(buf, true)
+			os.Stderr.Write(buf[:n])
+			fmt.Printf("INCONCLUSIVE property=%s watchdog fired after %s\n", id, wd)
+			os.Exit(2)
+		}()
 	}
 	f, err := os.ReadFile(filepath.Join(r.Dir, "known_findings.jsonl"))
 	if err == nil {
@@ -220,6 +239,9 @@ func (r *Run) Violation(sig, what string, replay any) bool {
 	fmt.Printf("  sig=%s\n  %s\n", sig, what)
 	return true
 }
+
+// Enough reports that so many violations were seen that further cases add nothing.
+func (r *Run) Enough() bool { r.mu.Lock(); defer r.mu.Unlock(); return r.violations >= 25 }
 
 func (r *Run) Violations() int { r.mu.Lock(); defer r.mu.Unlock(); return r.violations }
 
